@@ -137,6 +137,12 @@ the request list is recorded from the real run and replayed through the model. N
     for i in 0..n_docs {
         let Some(mut r) = c.case("doc", i) else { continue };
         let mut doc = loop { let d = gen_doc(&mut r); if d.objects.len() >= 1 && d.objects.len() <= 6 { break d; } };
+        // every document holds literal strings that need each kind of escape (backslash, unbalanced parentheses, CR) and a name that
+        // needs #-escapes: those are written by their own loops / helpers, not by one write_all
+        { let id = doc.new_object_id(); doc.objects.insert(id, lopdf::Object::Array(vec![
+            lopdf::Object::String(b"a\\b(c\rd)e)f((".to_vec(), lopdf::StringFormat::Literal),
+            lopdf::Object::String(vec![b'\\'; 300], lopdf::StringFormat::Literal),
+            lopdf::Object::Name(b"A B#(".to_vec())])); c.count("doc.escaped_strings"); }
         let stream = i % 2 == 1;
         doc.reference_table.cross_reference_type = if stream { XrefType::CrossReferenceStream } else { XrefType::CrossReferenceTable };
         let incr = i % 4 >= 2;
